@@ -107,6 +107,9 @@ def realise(world, root, fmt):
             if a == 'has':
                 with open(os.path.join(bor, m + ext), 'w') as f:
                     f.write('BORROWED-0-%s' % m)
+    for m in world.get('dst_dirs', []):
+        # a directory named like the file the module would be stored in: the writer's rename fails, after the text was written
+        os.mkdir(os.path.join(dst, m + ext))
     if world.get('pycache_is_a_file'):
         # byte-compiling any stored module fails (the cache directory cannot be made): the writer fails after the rename
         with open(os.path.join(dst, '__pycache__'), 'w') as f:
@@ -189,7 +192,7 @@ def mibdump_case(world, fmt, extra, sig):
         ext = {'json': '.json', 'pysnmp': '.py'}[fmt]
         present = set()
         for f in os.listdir(dst):
-            if f == '__pycache__' or f.startswith('index'):
+            if f == '__pycache__' or f.startswith('index') or f in [m + ext for m in world.get('dst_dirs', [])]:
                 continue
             present.add(f)
         pre = set(m + ext for s in world.get('searchers', []) for m, a in s.get('ans', {}).items() if a == 'fresh')
@@ -217,6 +220,8 @@ def dump_deviations():
         out.append({'searchers': [{'ans': {m: 'fresh'}}]})
         out.append({'borrowers': [{'texts': False, 'ans': {m: 'has'}}]})
     out.append({'pycache_is_a_file': 1, 'wrerr': ['A', 'B']})
+    out.append({'dst_dirs': ['B'], 'wrerr': ['B']})
+    out.append({'dst_dirs': ['A'], 'wrerr': ['A']})
     out.append({'src': {'A0': 'notfound'}, 'borrowers': [{'texts': False, 'ans': {'A': 'has'}}]})
     out.append({'text': {'B': 'synerr'}, 'borrowers': [{'texts': False, 'ans': {'B': 'has'}}]})
     out.append({'text': {'B': 'synerr'}, 'borrowers': [{'texts': True, 'ans': {'B': 'has'}}]})
@@ -225,6 +230,13 @@ def dump_deviations():
         out.append({'text': {good: 'synerr', bad: 'synerr'}, 'borrowers': [{'texts': False, 'ans': {good: 'has'}}]})
         out.append({'text': {good: 'synerr'}, 'src': {bad + '0': 'notfound'}, 'borrowers': [{'texts': False, 'ans': {good: 'has'}}]})
         out.append({'text': {good: 'dupsym', bad: 'truncated'}, 'borrowers': [{'texts': False, 'ans': {good: 'has'}}]})
+    # three modules, A importing the other two: C's file carries a copy of B as well; B has a file of its own, or none (then B has
+    # been asked for and found nowhere by the time C's file is read), or C's copy of it is the broken one
+    fan = {'n': 3, 'edges': [['A', 'B'], ['A', 'C']], 'used': 0}
+    out.append(dict(fan, text={'C0': 'plusB'}))
+    out.append(dict(fan, text={'C0': 'plusB'}, src={'B0': 'notfound'}))
+    out.append(dict(fan, text={'C0': 'brokenplusB'}, src={'B0': 'notfound'}))
+    out.append(dict(fan, text={'C0': 'brokenplusB'}))
     return out
 
 
@@ -252,7 +264,7 @@ class MibDump(object):
     case_timeout = 120
     name = 'mibdump'
     describe = ('worlds realised on disk (module A imports B; one or two deviations: absent, 7 text defects, up-to-date copy in the '
-                'destination, borrowable copy) x request x option subsets x format; judged by the compile() reference model')
+                'destination, borrowable copy; A importing B and C where C\'s file carries a sound / broken copy of B and B has a file or none) x request x option subsets x format; judged by the compile() reference model')
 
     def blocks(self, tier):
         return [{'d': i, 'fmt': f} for i in range(len(dump_deviations())) for f in ('json', 'pysnmp', 'null')]
@@ -266,8 +278,8 @@ class MibDump(object):
             for o, extra in option_subsets(tier if fmt == 'json' else 'quick'):
                 if fmt != 'json' and (len(o) > 1 or extra):
                     continue
-                if dev.get('pycache_is_a_file') and (o.get('dryRun') or o.get('writeMibs') is False):
-                    continue   # nothing is stored, so nothing is byte-compiled
+                if (dev.get('pycache_is_a_file') or dev.get('dst_dirs')) and (o.get('dryRun') or o.get('writeMibs') is False):
+                    continue   # nothing is stored, so nothing is byte-compiled (nothing is renamed)
                 if fmt == 'pysnmp' and not o:
                     for ex in ([], ['--no-python-compile']) if not dev.get('pycache_is_a_file') else ([],):
                         w = dict({'n': 2, 'edges': [['A', 'B']], 'req': req, 'used': 1}, **dev)
